@@ -29,7 +29,32 @@ let layout_cmd () =
        | OutOfFuel -> Printf.printf "%s fuel\n" id)
     | _ -> ())
 
+let rec render_tok b (t : tok) =
+  match t with
+  | TStr (v, s, e) -> Buffer.add_string b (Printf.sprintf "s(%s,%s,%s)" (hex_of_bytes v) (string_of_n s) (string_of_n e))
+  | TInt (z, s, e) -> Buffer.add_string b (Printf.sprintf "i(%s,%s,%s)" (string_of_coqz z) (string_of_n s) (string_of_n e))
+  | TList (l, s, e) ->
+    Buffer.add_string b (Printf.sprintf "l(%s,%s)[" (string_of_n s) (string_of_n e));
+    List.iteri (fun i x -> if i > 0 then Buffer.add_char b ','; render_tok b x) l;
+    Buffer.add_char b ']'
+  | TDict (l, s, e) ->
+    Buffer.add_string b (Printf.sprintf "d(%s,%s)[" (string_of_n s) (string_of_n e));
+    List.iteri (fun i (k, v) -> if i > 0 then Buffer.add_char b ','; render_tok b k; Buffer.add_char b '='; render_tok b v) l;
+    Buffer.add_char b ']'
+
+let decode_cmd () =
+  iter_lines (fun line ->
+    match words line with
+    | [id; h] ->
+      (match decode (bytes_of_hex h) with
+       | Ok t -> let b = Buffer.create 64 in render_tok b t; Printf.printf "%s ok %s\n" id (Buffer.contents b)
+       | Err -> Printf.printf "%s err\n" id
+       | Panic -> Printf.printf "%s panic\n" id
+       | OutOfFuel -> Printf.printf "%s fuel\n" id)
+    | _ -> ())
+
 let () =
   match Sys.argv with
+  | [| _; "decode" |] -> decode_cmd ()
   | [| _; "layout" |] -> layout_cmd ()
   | _ -> prerr_endline "usage: driver <layout|...>"; exit 2
